@@ -1,6 +1,6 @@
 (* C06 -- Pretty printing changes layout only (writer-level clauses).  Property theorems only. *)
-Require Import Base Token Tree SourceMap Writer Compile WriterSpec WriterProofs.
-Require Import Gen.Printer.
+Require Import Base Token Lexer Tree SourceMap Writer Compile Parser Grammar WriterSpec RelexSpec WriterProofs PrettyProofs.
+Require Import Gen.Tables Gen.Printer.
 
 (* the semicolon option is read by the statement-terminator operation only: output
    without optional semicolons = output with them of the same operations minus WSemi *)
@@ -17,3 +17,27 @@ Theorem C06_indent_only : forall i1 i2 semis m p,
   = lines_modulo_indent (r_code (compile (cfg_pretty i2 semis m) p)).
 Proof. exact indent_only. Qed.
 Print Assumptions C06_indent_only.
+
+(* ROUND TRIP through the pretty configurations *)
+
+(* Every pretty configuration that writes semicolons (any blank indent unit, with or without
+   source map): the formatted output of a program of the grammar lexed from a source text
+   lexes and parses back, without error, to the tree it was printed from - hence to the same
+   tree as the compact output (C01_compact_round_trip).  [literals_trim_safe]: no line of a
+   multi-line literal ends with a blank (the post-processing trims line ends also inside
+   literals: recorded finding KF3).  Without semicolons the clause is false (KF1, KF2). *)
+Theorem C06_pretty_round_trip : forall src toks p indent m,
+  tokenize src = Some toks -> strings_stable toks = true -> literals_trim_safe toks = true ->
+  m_program p toks = true -> wf_program p = true -> blank_str indent ->
+  exists r, reparse (cfg_pretty indent true m) p = Some r /\ pr_errors r = [] /\
+            shape_program (pr_program r) = shape_program p.
+Proof. exact program_round_trip_pretty. Qed.
+Print Assumptions C06_pretty_round_trip.
+
+(* NOT STATED HERE: "formatting the formatted output reproduces it byte for byte"
+   (r_code (compile cfg (pr_program r)) = r_code (compile cfg p) under the hypotheses above).
+   As stated it is FALSE: for the source  x;//<TAB>  (bytes 120 59 47 47 9) all hypotheses hold,
+   the first formatting is "x; //" (TrimSpace removes the TAB of the trailing comment), and
+   formatting that gives "x;" (a comment with empty text is re-read as a blank-line marker).
+   It needs the extra hypothesis that no comment of a lexed token is non-empty yet made only
+   of space bytes; that corrected clause is not proved. *)
